@@ -445,7 +445,7 @@ void h_replace_object_scenario(void)
     static struct { struct set_node n; struct conf_node_object v; } live_o, new_o;
     static struct { struct set_node n; struct conf_node_string v; } reg_a, left_b, new_b;
     static struct conf_node_object live_root, new_root;
-    memset(&live_root, 0, sizeof(live_root)); memset(&new_root, 0, sizeof(new_root));
+    /* (file-scope objects start zeroed; a memset would make their fields byte-level terms) */
     live_root.base.name = ""; live_root.base.type = CONF_OBJECT; live_root.base.specified = 1; live_root.base.present = 1;
     live_root.contents.compare = conf_object_cmp; live_root.contents.cleanup = conf_object_cleanup;
     new_root = live_root; new_root.contents.root = NULL; new_root.contents.count = 0;
